@@ -17,7 +17,7 @@ import (
 	"verif/internal/ev"
 )
 
-const rule = "cases: (value,width) pairs from boundary sets 2^(8n)-1/2^(8n)/2^63-1, uniform per width, arbitrary int64 and sizes -2..10; raw 0..10-byte integers; millisecond dates from boundaries (2^31, 2^32 s, the UnixNano limit 9223372036854, 2^k+-2, 2^63-1), uniform int64 and 1970..2300; byte strings 0..300 for the string reader (exact, suffixed, short, arbitrary); widths 1-2 and string lengths 0..300 enumerated completely. Oracle: math/big big-endian arithmetic and inverse laws. Non-trivial: integer >= 256 or width > 1 (or a rejected out-of-domain pair other than the smallest), raw integer of >= 2 bytes, date >= 256 ms, string with >= 1 content byte or a short string of >= 2 bytes; distinct by (sub-check, value, width) or input bytes."
+const rule = "(results of the integer encoders and readers are held while other values go through the same functions and while each is overwritten in turn: they are values of their own) cases: (value,width) pairs from boundary sets 2^(8n)-1/2^(8n)/2^63-1, uniform per width, arbitrary int64 and sizes -2..10; raw 0..10-byte integers; millisecond dates from boundaries (2^31, 2^32 s, the UnixNano limit 9223372036854, 2^k+-2, 2^63-1), uniform int64 and 1970..2300; byte strings 0..300 for the string reader (exact, suffixed, short, arbitrary); widths 1-2 and string lengths 0..300 enumerated completely. Oracle: math/big big-endian arithmetic and inverse laws. Non-trivial: integer >= 256 or width > 1 (or a rejected out-of-domain pair other than the smallest), raw integer of >= 2 bytes, date >= 256 ms, string with >= 1 content byte or a short string of >= 2 bytes; distinct by (sub-check, value, width) or input bytes."
 
 func TestMain(m *testing.M) { ev.Main(m, "C12", rule) }
 
@@ -119,6 +119,42 @@ func checkInt(c IntCase, r *ev.Rec) error {
 		if len(si) >= n {
 			return fmt.Errorf("ReadInteger on %d of %d bytes returned a complete value % x", k, n, si)
 		}
+	}
+	// results are values of their own: they are held while other values go through
+	// the same functions, then each is overwritten in turn
+	held := [][]byte{b2, i1.Bytes(), []byte(ri), []byte(*pi), []byte(ci)}
+	other := beBytes(^uint64(v), n)
+	ov := int(new(big.Int).SetBytes(other).Uint64() & 0x7fffffffffffffff)
+	if !fits(uint64(ov), n) {
+		ov = 0
+	}
+	for rep := 0; rep < 3; rep++ {
+		data.EncodeIntN(ov, n)
+		data.NewIntegerFromInt(ov, n)
+		data.ReadInteger(append(append([]byte{}, other...), 9), n)
+		data.NewInteger(append([]byte{}, other...), n)
+		data.NewIntegerFromBytes(other)
+		data.DecodeIntN(other)
+	}
+	names := []string{"EncodeIntN", "NewIntegerFromInt(...).Bytes()", "ReadInteger", "NewInteger", "NewIntegerFromBytes"}
+	for i, h := range held {
+		if !bytes.Equal(h, want) {
+			return fmt.Errorf("the result of %s(%d,%d) changed after other values were encoded and decoded: % x, want % x (results share memory)", names[i], v, n, h, want)
+		}
+	}
+	// the encoder's output belongs to the caller: writing into it changes nothing else
+	// (the readers may return views of their input, so only the encoder result is written)
+	ref := append([]byte{}, want...)
+	for j := range b2 {
+		b2[j] ^= 0xff
+	}
+	for k := 1; k < len(held); k++ {
+		if !bytes.Equal(held[k], ref) {
+			return fmt.Errorf("writing into the result of EncodeIntN changed the result of %s", names[k])
+		}
+	}
+	if b3, e3 := data.EncodeIntN(int(v), n); e3 != nil || !bytes.Equal(b3, ref) {
+		return fmt.Errorf("EncodeIntN(%d,%d) = % x after an earlier result was overwritten, want % x", v, n, b3, ref)
 	}
 	if v >= 256 || n > 1 {
 		r.NonTrivialStr(c, "int", fmt.Sprint(v), fmt.Sprint(n))
